@@ -183,6 +183,21 @@ theorem quat_alg_setters_translated (n d c0 c1 c2 c3 s : ℤ) (x : Elem) :
       QuatAlgText.tup (elemMulByScalar s x) :=
   ⟨QuatAlgText.scalar_gen n d, QuatAlgText.copy_ibz_gen d c0 c1 c2 c3, QuatAlgText.mul_by_scalar_gen s x⟩
 
+/-- the translated C text of `quat_alg_elem_is_zero` / `quat_alg_coord_is_zero` (`res &= ibz_is_zero(..)` over the four
+    coordinates, C int 0/1 read as Bool) = the model, and it decides "the value is 0 in `H p`" for a non-zero denominator -/
+theorem quat_alg_is_zero_translated_exact (p : ℤ) (x : Elem) (hx : x.denom ≠ 0) :
+    SqiGen.QuatAlg.quat_alg_coord_is_zero x.coord.x0 x.coord.x1 x.coord.x2 x.coord.x3 = x.coord.isZero ∧
+    SqiGen.QuatAlg.quat_alg_elem_is_zero x.denom x.coord.x0 x.coord.x1 x.coord.x2 x.coord.x3 = elemIsZero x ∧
+    (SqiGen.QuatAlg.quat_alg_elem_is_zero x.denom x.coord.x0 x.coord.x1 x.coord.x2 x.coord.x3 = true ↔ val p x = 0) := by
+  refine ⟨QuatAlgText.coord_is_zero_gen _, QuatAlgText.elem_is_zero_gen x, ?_⟩
+  rw [QuatAlgText.elem_is_zero_gen]
+  have hd : (x.denom : ℚ) ≠ 0 := by exact_mod_cast hx
+  obtain ⟨d, ⟨x0, x1, x2, x3⟩⟩ := x
+  have hd' : (d : ℚ) ≠ 0 := hd
+  simp only [elemIsZero, Vec4.isZero, val, Bool.and_eq_true, beq_iff_eq, QuaternionAlgebra.ext_iff,
+    QuaternionAlgebra.re_zero, QuaternionAlgebra.imI_zero, QuaternionAlgebra.imJ_zero, QuaternionAlgebra.imK_zero,
+    div_eq_zero_iff, Int.cast_eq_zero, and_assoc, hd', or_false]
+
 example : SqiGen.QuatAlg.quat_alg_sub 2 1 2 3 4 3 5 6 7 8 = (6, -7, -6, -5, -4) := by decide
 
 /-- tie T: the entry scan of `ibz_mat_4x4_gcd` as translated from the current C text is the model's content of ALL 16
